@@ -149,6 +149,15 @@ fn deep_roots() -> Vec<Vec<&'static str>> {
     ]
 }
 
+/// both chunk limits set; with the harness's record sizes sometimes the size
+/// limit (100 bytes: a head snapshot with user data + one State record) and
+/// sometimes the record limit (3) is reached first
+fn both_limits() -> Cfg {
+    let mut c = Cfg::records(3);
+    c.max_size = Some(100);
+    c
+}
+
 fn chunk_cfgs_all() -> Vec<Cfg> {
     vec![
         Cfg::records(1),
@@ -307,7 +316,7 @@ pub fn seq_phases(prop: &str, tier: &str) -> Vec<Phase> {
                     Phase { name: "legal alphabet, chunk limits incl. 0 and 1", spec: spec(prop, Alpha::Legal, 5, cfgs, o.clone(), 1200) },
                     Phase {
                         name: "core alphabet, deeper",
-                        spec: spec(prop, Alpha::Core, 6, vec![Cfg::records(2), Cfg::records(3), Cfg::size(60)], o.clone(), 1200),
+                        spec: spec(prop, Alpha::Core, 6, vec![Cfg::records(2), Cfg::records(3), Cfg::size(60), both_limits()], o.clone(), 1200),
                     },
                     Phase {
                         name: "from deep start states (lower-term re-append, purged prefix, double truncation)",
@@ -322,8 +331,8 @@ pub fn seq_phases(prop: &str, tier: &str) -> Vec<Phase> {
                 vec![
                     Phase { name: "legal alphabet, chunk limits incl. 0 and 1", spec: spec(prop, Alpha::Legal, 3, cfgs, o.clone(), 40) },
                     Phase {
-                        name: "core alphabet, deeper",
-                        spec: spec(prop, Alpha::Core, 4, vec![Cfg::records(2), Cfg::records(3)], o.clone(), 40),
+                        name: "core alphabet, deeper (incl. both limits set: whichever is reached first closes the file)",
+                        spec: spec(prop, Alpha::Core, 4, vec![Cfg::records(2), Cfg::records(3), both_limits()], o.clone(), 40),
                     },
                     Phase {
                         name: "from deep start states (lower-term re-append, purged prefix, double truncation)",
@@ -385,7 +394,12 @@ pub fn seq_worker(prop: &str, tier: &str, phase: usize) -> i32 {
 
 pub fn run_check(prop: &str, tier: &str) -> i32 {
     match prop {
-        "C01" | "C02" | "C06" | "C16" => run_seq_phases(prop, tier, seq_phases(prop, tier), json!({})),
+        "C01" | "C02" | "C06" => run_seq_phases(prop, tier, seq_phases(prop, tier), json!({})),
+        "C16" => {
+            let rep = Reporter::new(prop, tier);
+            let n = crate::probes::run_dir_probes(&rep);
+            run_seq_phases_with(&rep, seq_phases(prop, tier), json!({"directory_situation_probes": n}))
+        }
         "C15" => {
             // eager-worker dimension (seqx) + worker-timing dimension (schedx)
             let rep = Reporter::new(prop, tier);
